@@ -318,6 +318,9 @@ func (CrashScenario) Execute(sim *sched.Sim, ci interface{}, prop string, race b
 			} else {
 				cr.noteInit()
 			}
+			// index updates of the seeds run on the queue's own goroutine,
+			// which the simulator does not schedule during a restart
+			cr.qs.Flush()
 			if err := cr.qs.RebuildIndexes(); err != nil {
 				h.Violate("C12", "rebuild-error", rebuildSig(err), fmt.Sprintf("RebuildIndexes after restart (prefix %q) failed: %v", c.Prefix, err))
 			}
